@@ -5,6 +5,7 @@ text, exhaustively over a small domain - a *bounded* check, labelled as such, ne
 sites that bind their parameters are checked against the PARAM order (shared with C04/C14)."""
 import itertools
 
+from tx.tier import THOROUGH, pick
 from tx import b09mini, ecbsig, f2, opaque
 from tx.opaque import OpqExp
 from tx.p_c05 import ob, guarded
@@ -34,9 +35,10 @@ def instr():
     def run():
         proc = b09mini.load(ecbsig.library_text(), "ecb_instr")
         bad, n = [], 0
-        for s in strings("AB", 5):
-            for p in strings("AB", 3):
-                for index in range(1, 8):
+        alpha, ms, mp = pick(("AB", 5, 3), ("ABC", 6, 4))
+        for s in strings(alpha, ms):
+            for p in strings(alpha, mp):
+                for index in range(1, ms + 3):
                     want = instr_spec(index, s, p)
                     n += 1
                     try:
@@ -46,7 +48,7 @@ def instr():
                     if got != want:
                         bad.append(dict(index=index, s=s, pattern=p, expected=want, got=got))
         return [ob("instr/all subjects to length 5, patterns to length 3 over {A,B}, start 1..7", not bad, "first position >= start, 0 if none", bad[:4] or "%d cases" % n,
-                   bounded="subjects <= 5, patterns <= 3 characters over a 2-letter alphabet, start index 1..7; result variable pre-set to garbage")]
+                   bounded="subjects <= %d, patterns <= %d characters over %r, start index 1..%d; result variable pre-set to garbage" % (ms, mp, alpha, ms + 2))]
     return guarded("instr", run)
 
 
@@ -138,4 +140,7 @@ _c20_base = obligations
 
 
 def obligations():  # noqa: F811
-    return _c20_base() + filter_chain()
+    # the filter only stands for the reading of empty items if the translator engages it: flag accumulation over all DATA
+    # statements and the READ/DATA patching protocol (shared with C03)
+    from tx.p_c03 import empty_item_protocol
+    return _c20_base() + filter_chain() + empty_item_protocol()
